@@ -246,6 +246,9 @@ func (p *Parser) led(tokenType tokType, node ASTNode) (ASTNode, error) {
 		right, err := p.parseExpression(bindingPowers[tAnd])
 		return ASTNode{nodeType: ASTAndExpression, children: []ASTNode{node, right}}, err
 	case tLparen:
+		if node.nodeType != ASTField || p.tokens[p.index-2].tokenType != tUnquotedIdentifier {
+			return ASTNode{}, p.syntaxErrorToken("Only an unquoted identifier can be called as a function", p.tokens[p.index-1])
+		}
 		name := node.value
 		var args []ASTNode
 		if p.current() != tRparen {
